@@ -12,30 +12,14 @@ open ClassRead ClassRead.Spec
 
 def SMethodAttr.frame (a : SMethodAttr) : Bytes := attrFrame a.raw.1 a.raw.2
 
-theorem map_eq_of_zip {α β : Type} (g : α → β) : ∀ (ls : List α) (xs : List β), ls.length = xs.length →
-    (∀ x ∈ ls.zip xs, g x.1 = x.2) → ls.map g = xs := by
-  intro ls
-  induction ls with
-  | nil => intro xs hl _; cases xs with
-    | nil => rfl
-    | cons _ _ => simp at hl
-  | cons l ls ih =>
-    intro xs hl h
-    cases xs with
-    | nil => simp at hl
-    | cons x xs =>
-      have h0 := h (l, x) (by simp)
-      simp only at h0
-      rw [List.map_cons, h0, ih xs (by simpa using hl) (fun y hy => h y (by simp [hy]))]
-
-/-- conditions on a method of the proved fragment (no `Code`, no annotations yet) -/
+/-- conditions on a method of the proved fragment (no `Code`) -/
 structure MethodOk (m : MethodFacts) : Prop where
   code : m.code = none
-  rva : m.rva = []
-  ria : m.ria = []
-  rvta : m.rvta = []
-  rita : m.rita = []
-  annotationDefault : m.annotationDefault = none
+  rva : AnnosOk m.rva
+  ria : AnnosOk m.ria
+  rvta : TypeAnnosOk .method m.rvta
+  rita : TypeAnnosOk .method m.rita
+  annotationDefault : ∀ v, m.annotationDefault = some v → v.ok ∧ v.depth ≤ 255
   access : m.access < 65536
   mask : m.access &&& maskMethod = m.access
   name : validMethodName m.name = true
@@ -81,6 +65,157 @@ theorem methodParams_spec {ps : List MethodParam} {p p' : Pool} {b : Bytes} (hg 
       obtain ⟨s, hi, hc⟩ := putOptional_spec Utf8At (fun p p' a i hg h => putUtf8_spec' hg h) hg h1
       exact ⟨s, (i, a.name, a.flags), rfl, rfl, rfl, hi, hc⟩) ps p p' b hg h
 
+/-- methods: framing, legality (for any bootstrap table: no `Code` here), effect on the facts -/
+def ownMethod : Own SMethodAttr MethodFacts :=
+  ⟨SMethodAttr.frame, fun rp a => ∀ bsms : Option (List ClassRead.Bsm), a.Legal rp bsms, SMethodAttr.apply⟩
+
+theorem mblock_deprecated {m : MethodFacts} {o : Option Bytes} {q : Pool}
+    (c : (m.deprecated = false ∧ o = none) ∨ (m.deprecated = true ∧ Present o q sDeprecated [])) :
+    GBlock ownMethod o q (fun _ => True) (fun c => { c with deprecated := c.deprecated || m.deprecated }) := by
+  rcases c with ⟨hf, rfl⟩ | ⟨hf, nc, rfl, hn, a⟩
+  · exact gblock_absent (fun c _ => by simp [hf])
+  · exact gblock_present (O := ownMethod) (.deprecated nc) (fun q' hq _ => ⟨hn, getUtf8_of hq.good (a.mono hq.le)⟩)
+      (fun st _ => by simp [ownMethod, SMethodAttr.apply, hf])
+
+theorem mblock_synthetic {m : MethodFacts} {o : Option Bytes} {q : Pool}
+    (c : (m.synthetic = false ∧ o = none) ∨ (m.synthetic = true ∧ Present o q sSynthetic [])) :
+    GBlock ownMethod o q (fun _ => True) (fun c => { c with synthetic := c.synthetic || m.synthetic }) := by
+  rcases c with ⟨hf, rfl⟩ | ⟨hf, nc, rfl, hn, a⟩
+  · exact gblock_absent (fun c _ => by simp [hf])
+  · exact gblock_present (O := ownMethod) (.synthetic nc) (fun q' hq _ => ⟨hn, getUtf8_of hq.good (a.mono hq.le)⟩)
+      (fun st _ => by simp [ownMethod, SMethodAttr.apply, hf])
+
+theorem mblock_exceptions {m : MethodFacts} {o : Option Bytes} {q : Pool}
+    (hok : ∀ es, m.exceptions = some es → ∀ e ∈ es, validClassName e = true)
+    (c : (m.exceptions = none ∧ o = none) ∨
+      (∃ (cs : List JStr) (cps : List Nat), m.exceptions = some cs ∧
+        Present o q sExceptions (be16 cps.length ++ cps.flatMap be16) ∧ cps.length = cs.length ∧
+        cps.length < 65536 ∧ ∀ y ∈ cps.zip cs, y.1 < 65536 ∧ ClsAt q y.1 y.2)) :
+    GBlock ownMethod o q (fun c => c.exceptions = none) (fun c => { c with exceptions := m.exceptions }) := by
+  rcases c with ⟨hf, rfl⟩ | ⟨cs, cps, hf, ⟨nc, rfl, hn, a⟩, hl, hlt, hr⟩
+  · exact gblock_absent (fun c hc => by cases c; simp_all)
+  · refine gblock_present (O := ownMethod) (.exceptions nc cps cs) ?_
+      (fun st hst => by simp [ownMethod, SMethodAttr.apply, hst, hf])
+    intro q' hq _
+    refine ⟨hn, getUtf8_of hq.good (a.mono hq.le), hlt, hl, ?_⟩
+    intro y hy
+    exact ⟨(hr y hy).1, getClass_of hq.good ((hr y hy).2.mono hq.le) (hok cs hf y.2 (List.of_mem_zip hy).2)⟩
+
+theorem mblock_signature {m : MethodFacts} {o : Option Bytes} {q : Pool}
+    (c : (m.signature = none ∧ o = none) ∨
+      (∃ s cp, m.signature = some s ∧ Present o q sSignature (be16 cp) ∧ cp < 65536 ∧ Utf8At q cp s)) :
+    GBlock ownMethod o q (fun c => c.signature = none) (fun c => { c with signature := m.signature }) := by
+  rcases c with ⟨hf, rfl⟩ | ⟨s, cp, hf, ⟨nc, rfl, hn, a⟩, hc, ac⟩
+  · exact gblock_absent (fun c hc => by cases c; simp_all)
+  · exact gblock_present (O := ownMethod) (.signature nc cp s)
+      (fun q' hq _ => ⟨hn, getUtf8_of hq.good (a.mono hq.le), hc, getUtf8_of hq.good (ac.mono hq.le)⟩)
+      (fun st hst => by simp [ownMethod, SMethodAttr.apply, hst, hf])
+
+theorem mblock_annos (visible : Bool) {as : List Annotation} {o : Option Bytes} {q : Pool}
+    (c : (as = [] ∧ o = none) ∨
+      ∃ sas : List SAnno, Present o q (if visible then sRVA else sRIA) (encAnnos sas) ∧ sas.map SAnno.fact = as ∧
+        sas.length < 65536 ∧ (encAnnos sas).length < 4294967296 ∧ ∀ sa ∈ sas, Sound q (fun rp => sa.Ok rp)) :
+    GBlock ownMethod o q (fun _ => True)
+      (fun c => if visible then { c with rva := c.rva ++ as } else { c with ria := c.ria ++ as }) := by
+  rcases c with ⟨rfl, rfl⟩ | ⟨sas, ⟨nc, rfl, hn, a⟩, hm, hl, hb, hs⟩
+  · exact gblock_absent (fun c _ => by cases visible <;> simp)
+  · exact gblock_present (O := ownMethod) (.annotations nc visible sas)
+      (fun q' hq _ => ⟨hn, getUtf8_of hq.good (a.mono hq.le), hl, fun sa hsa => hs sa hsa q' hq, hb⟩)
+      (fun st _ => by cases visible <;> simp [ownMethod, SMethodAttr.apply, hm])
+
+theorem mblock_typeAnnos (visible : Bool) {as : List TypeAnno} {o : Option Bytes} {q : Pool}
+    (c : (as = [] ∧ o = none) ∨
+      ∃ sas : List STypeAnno, Present o q (if visible then sRVTA else sRITA) (encTypeAnnos sas) ∧ sas.map STypeAnno.fact = as ∧
+        sas.length < 65536 ∧ (encTypeAnnos sas).length < 4294967296 ∧ ∀ sa ∈ sas, Sound q (fun rp => sa.Legal rp .method)) :
+    GBlock ownMethod o q (fun _ => True)
+      (fun c => if visible then { c with rvta := c.rvta ++ as } else { c with rita := c.rita ++ as }) := by
+  rcases c with ⟨rfl, rfl⟩ | ⟨sas, ⟨nc, rfl, hn, a⟩, hm, hl, hb, hs⟩
+  · exact gblock_absent (fun c _ => by cases visible <;> simp)
+  · exact gblock_present (O := ownMethod) (.typeAnnotations nc visible sas)
+      (fun q' hq _ => ⟨hn, getUtf8_of hq.good (a.mono hq.le), hl, fun sa hsa => hs sa hsa q' hq, hb⟩)
+      (fun st _ => by cases visible <;> simp [ownMethod, SMethodAttr.apply, hm])
+
+theorem annotationDefault_spec {x : Option ElemVal} {p p' : Pool} {o : Option Bytes} (hg : Good p)
+    (hok : ∀ v, x = some v → v.ok ∧ v.depth ≤ 255)
+    (h : ifSome x (fun v => attrBuf sAnnotationDefault (fun p => writeElemVal p v)) p = .ok (o, p')) :
+    Step p p' ∧ ((x = none ∧ o = none) ∨
+      ∃ se : SElem, Present o p' sAnnotationDefault se.encode ∧ x = some se.fact ∧ se.encode.length < 4294967296 ∧
+        Sound p' (fun rp => se.Ok rp)) := by
+  rcases ifSome_inv h with ⟨v, b, rfl, hb, rfl⟩ | ⟨rfl, rfl, rfl⟩
+  · obtain ⟨bb, p1, i, h1, h2, hlen, rfl⟩ := attrBuf_inv hb
+    obtain ⟨s1, se, rfl, hf, hn, hleg⟩ := writeElemVal_spec v hg (hok v rfl).1 h1
+    obtain ⟨s2, a2, hi⟩ := putUtf8_spec s1.good h2
+    exact ⟨s1.trans s2, Or.inr ⟨se, ⟨i, rfl, hi, a2⟩, by rw [hf], by omega,
+      fun q hq => ⟨hleg q (hq.of_le s2.le), by rw [hn]; exact (hok v rfl).2⟩⟩⟩
+  · exact ⟨Step.refl hg, Or.inl ⟨rfl, rfl⟩⟩
+
+theorem mblock_annotationDefault {m : MethodFacts} {o : Option Bytes} {q : Pool}
+    (c : (m.annotationDefault = none ∧ o = none) ∨
+      ∃ se : SElem, Present o q sAnnotationDefault se.encode ∧ m.annotationDefault = some se.fact ∧
+        se.encode.length < 4294967296 ∧ Sound q (fun rp => se.Ok rp)) :
+    GBlock ownMethod o q (fun c => c.annotationDefault = none)
+      (fun c => { c with annotationDefault := m.annotationDefault }) := by
+  rcases c with ⟨hf, rfl⟩ | ⟨se, ⟨nc, rfl, hn, a⟩, hf, hl, hs⟩
+  · exact gblock_absent (fun c hc => by cases c; simp_all)
+  · exact gblock_present (O := ownMethod) (.annotationDefault nc se)
+      (fun q' hq _ => ⟨hn, getUtf8_of hq.good (a.mono hq.le), hs q' hq, hl⟩)
+      (fun st _ => by simp [ownMethod, SMethodAttr.apply, hf])
+
+theorem mblock_params {m : MethodFacts} {o : Option Bytes} {q : Pool}
+    (hok : ∀ ps, m.params = some ps → ∀ q ∈ ps, q.flags < 65536 ∧ q.flags &&& maskParam = q.flags ∧
+      ∀ n, q.name = some n → validUnqualified n = true)
+    (c : (m.params = none ∧ o = none) ∨
+      ∃ (ps : List MethodParam) (ls : List (Nat × Option JStr × Nat)), m.params = some ps ∧
+        Present o q sMethodParameters (be8 ls.length ++ ls.flatMap (fun q => be16 q.1 ++ be16 q.2.2)) ∧
+        ls.length = ps.length ∧ ls.length < 256 ∧
+        ∀ x ∈ ls.zip ps, x.1.2.1 = x.2.name ∧ x.1.2.2 = x.2.flags ∧ x.1.1 < 65536 ∧
+          ((x.2.name = none ∧ x.1.1 = 0) ∨ ∃ n, x.2.name = some n ∧ Utf8At q x.1.1 n ∧ 1 ≤ x.1.1)) :
+    GBlock ownMethod o q (fun c => c.params = none) (fun c => { c with params := m.params }) := by
+  rcases c with ⟨hf, rfl⟩ | ⟨ps, ls, hf, ⟨nc, rfl, hn, a⟩, hl, hlt, hr⟩
+  · exact gblock_absent (fun c hc => by cases c; simp_all)
+  · refine gblock_present (O := ownMethod) (.methodParameters nc ls) ?_ ?_
+    · intro q' hq _
+      refine ⟨hn, getUtf8_of hq.good (a.mono hq.le), hlt, ?_⟩
+      intro y hy
+      obtain ⟨k, hk, hyk⟩ := List.getElem_of_mem hy
+      have hk' : k < ps.length := by omega
+      have hz : (y, ps[k]) ∈ ls.zip ps := by
+        rw [← hyk]
+        exact List.mem_iff_getElem.mpr ⟨k, by rw [List.length_zip]; omega, by simp⟩
+      obtain ⟨b1, b2, b3, b4⟩ := hr _ hz
+      simp only at b1 b2 b3 b4
+      have hpk := hok ps hf ps[k] (List.getElem_mem hk')
+      refine ⟨b3, by rw [b2]; exact hpk.1, ?_⟩
+      rcases b4 with ⟨hnone, h0⟩ | ⟨n, hn', hu, h1'⟩
+      · rw [h0, b1, hnone]; exact getOptional_zero _ _
+      · rw [b1, hn']
+        apply getOptional_pos _ _ h1'
+        simp [getUtf8_of hq.good (hu.mono hq.le), checked, hpk.2.2 n hn', bind, Outcome.bind]
+    · intro st hst
+      simp only [ownMethod, SMethodAttr.apply, hst, Option.isNone_none, if_true, hf]
+      congr 2
+      refine congrArg some ?_
+      apply map_eq_of_zip _ ls ps hl
+      intro x hx
+      obtain ⟨b1, b2, _, _⟩ := hr x hx
+      have hpk := hok ps hf x.2 (List.of_mem_zip hx).2
+      cases hx2 : x.2
+      simp_all
+
+theorem mblocks_unknown {m : MethodFacts} (hok : ∀ a ∈ m.attrs, a.name ∉ methodAttrNames) {q : Pool} {ncs : List Nat}
+    (hlen : ncs.length = m.attrs.length)
+    (hunk : ∀ x ∈ ncs.zip m.attrs, x.1 < 65536 ∧ Utf8At q x.1 x.2.name ∧ x.2.bytes.length < 4294967296) :
+    GBlocks ownMethod ((ncs.zip m.attrs).map (fun x => attrFrame x.1 x.2.bytes)) q (fun _ => True)
+      (fun c => { c with attrs := c.attrs ++ m.attrs }) := by
+  refine ⟨(ncs.zip m.attrs).map fun x => SMethodAttr.unknown x.1 x.2.name x.2.bytes, ?_, ?_, ?_⟩
+  · simp [List.map_map, Function.comp_def, ownMethod, SMethodAttr.frame, SMethodAttr.raw]
+  · intro a ha q' hq _
+    obtain ⟨x, hx, rfl⟩ := List.mem_map.mp ha
+    obtain ⟨hn, hu, hb⟩ := hunk x hx
+    exact ⟨hn, getUtf8_of hq.good (hu.mono hq.le), hok x.2 (List.of_mem_zip hx).2, hb⟩
+  · intro st _
+    exact applyAll_method_unknown st ncs m.attrs hlen
+
 theorem writeMethod_spec {p p' : Pool} {bs bs' : List Bsm} {m : MethodFacts} {b : Bytes} (hg : Good p) (hok : MethodOk m)
     (h : writeMethod p bs m = .ok (b, p', bs')) :
     bs' = bs ∧ Step p p' ∧
@@ -98,43 +233,40 @@ theorem writeMethod_spec {p p' : Pool} {bs bs' : List Bsm} {m : MethodFacts} {b 
   cases this
   obtain ⟨s1, a1, hni⟩ := putUtf8_spec hg h1
   obtain ⟨s2, a2, hdi⟩ := putUtf8_spec s1.good h2
-  rw [hok.rva, hok.ria, hok.rvta, hok.rita, hok.annotationDefault] at h5
   obtain ⟨o1, q1, r1, e1, k1, rfl⟩ := runAttrs_cons_inv h3
   obtain ⟨o2, q2, r2, e2, k2, rfl⟩ := runAttrs_cons_inv k1
   obtain ⟨rfl, rfl⟩ := runAttrs_nil_inv k2
   simp only [List.cons_append, List.nil_append, List.append_assoc] at h5
   obtain ⟨o3, q3, r3, e3, k3, rfl⟩ := runAttrs_cons_inv h5
   obtain ⟨o4, q4, r4, e4, k4, rfl⟩ := runAttrs_cons_inv k3
-  obtain ⟨r5, q5, r6, e5, k5, rfl⟩ := runAttrs_append_inv k4
-  rw [annoBlocks_nil] at e5
-  have := ok_inj.mp e5
-  cases this
-  obtain ⟨o6, q6, r7, e6, k6, rfl⟩ := runAttrs_cons_inv k5
-  have : o6 = none ∧ q6 = q4 := by
-    have := ok_inj.mp e6
-    cases this
-    exact ⟨rfl, rfl⟩
-  obtain ⟨rfl, rfl⟩ := this
-  obtain ⟨o7, q7, r8, e7, k7, rfl⟩ := runAttrs_cons_inv k6
+  obtain ⟨r5, q8, r6, e5, k5, rfl⟩ := runAttrs_append_inv k4
+  obtain ⟨o5, q5, o6, q6, o7, q7, o8, e5a, e6, e7, e8, rfl⟩ := annoBlocks_inv e5
+  obtain ⟨o9, q9, r7, e9, k6, rfl⟩ := runAttrs_cons_inv k5
+  obtain ⟨o10, q10, r8, e10, k7, rfl⟩ := runAttrs_cons_inv k6
   obtain ⟨t1, c1⟩ := flagAttr_spec s2.good e1
   obtain ⟨t2, c2⟩ := flagAttr_spec t1.good e2
   obtain ⟨t3, c3⟩ := classListAttr_spec (name := sExceptions) t2.good e3
   obtain ⟨t4, c4⟩ := sigAttr_spec t3.good e4
+  obtain ⟨t5, c5⟩ := annosAttr_spec t4.good hok.rva e5a
+  obtain ⟨t6, c6⟩ := annosAttr_spec t5.good hok.ria e6
+  obtain ⟨t7, c7⟩ := typeAnnosAttr_spec writeTargetMethod_eq t6.good hok.rvta e7
+  obtain ⟨t8, c8⟩ := typeAnnosAttr_spec writeTargetMethod_eq t7.good hok.rita e8
+  obtain ⟨t9, c9⟩ := annotationDefault_spec t8.good hok.annotationDefault e9
   -- MethodParameters
-  have t7 : Step q6 q7 ∧ ((m.params = none ∧ o7 = none) ∨
+  have t10 : Step q9 q10 ∧ ((m.params = none ∧ o10 = none) ∨
       ∃ (ps : List MethodParam) (ls : List (Nat × Option JStr × Nat)), m.params = some ps ∧
-        Present o7 q7 sMethodParameters (be8 ls.length ++ ls.flatMap (fun q => be16 q.1 ++ be16 q.2.2)) ∧
+        Present o10 q10 sMethodParameters (be8 ls.length ++ ls.flatMap (fun q => be16 q.1 ++ be16 q.2.2)) ∧
         ls.length = ps.length ∧ ls.length < 256 ∧
         ∀ x ∈ ls.zip ps, x.1.2.1 = x.2.name ∧ x.1.2.2 = x.2.flags ∧ x.1.1 < 65536 ∧
-          ((x.2.name = none ∧ x.1.1 = 0) ∨ ∃ n, x.2.name = some n ∧ Utf8At q7 x.1.1 n ∧ 1 ≤ x.1.1)) := by
-    rcases ifSome_inv e7 with ⟨ps, b, hps, hb, rfl⟩ | ⟨hps, rfl, rfl⟩
+          ((x.2.name = none ∧ x.1.1 = 0) ∨ ∃ n, x.2.name = some n ∧ Utf8At q10 x.1.1 n ∧ 1 ≤ x.1.1)) := by
+    rcases ifSome_inv e10 with ⟨ps, b, hps, hb, rfl⟩ | ⟨hps, rfl, rfl⟩
     · obtain ⟨bb, p1', i, hb1, hb2, _, rfl⟩ := attrBuf_inv hb
       obtain ⟨c, hc1, hc2⟩ := bind_eq_ok.mp hb1
       obtain ⟨hl8, rfl⟩ := cnt8_eq_ok.mp hc1
       obtain ⟨⟨rows, p2'⟩, hc3, hc4⟩ := bind_eq_ok.mp hc2
       have := pure_eq_ok.mp hc4
       cases this
-      obtain ⟨u1, ls, rfl, hlen, hr⟩ := methodParams_spec t4.good hc3
+      obtain ⟨u1, ls, rfl, hlen, hr⟩ := methodParams_spec t9.good hc3
       obtain ⟨u2, au, hi⟩ := putUtf8_spec u1.good hb2
       refine ⟨u1.trans u2, Or.inr ⟨ps, ls, hps, ⟨i, ?_, hi, au⟩, hlen, by omega, ?_⟩⟩
       · have : ps.length % 256 = ps.length := Nat.mod_eq_of_lt (by omega)
@@ -145,135 +277,71 @@ theorem writeMethod_spec {p p' : Pool} {bs bs' : List Bsm} {m : MethodFacts} {b 
         rcases b4 with b4 | ⟨n, hn, hu, h1'⟩
         · exact Or.inl b4
         · exact Or.inr ⟨n, hn, hu.mono u2.le, h1'⟩
-    · exact ⟨Step.refl t4.good, Or.inl ⟨hps, rfl⟩⟩
-  obtain ⟨t7, c7⟩ := t7
-  obtain ⟨t8, ncs, hlen, rfl, hunk⟩ := unknownAttrs_spec m.attrs t7.good k7
+    · exact ⟨Step.refl t9.good, Or.inl ⟨hps, rfl⟩⟩
+  obtain ⟨t10, c10⟩ := t10
+  obtain ⟨t11, ncs, hlen, rfl, hunk⟩ := unknownAttrs_spec m.attrs t10.good k7
   obtain ⟨hcount, rfl⟩ := attrsBytes_inv h6
-  have stepAll : Step p p' := s1.trans (s2.trans (t1.trans (t2.trans (t3.trans (t4.trans (t7.trans t8))))))
-  refine ⟨rfl, stepAll, ?_⟩
-  have L1 : ∃ lo : Option SMethodAttr, o1 = lo.map SMethodAttr.frame ∧
-      (∀ a ∈ lo, ∀ bsms, Sound q1 (fun rp => a.Legal rp bsms)) ∧
-      ∀ st : MethodFacts, applyAll SMethodAttr.apply st lo.toList = some { st with deprecated := st.deprecated || m.deprecated } := by
-    rcases c1 with ⟨hf, rfl⟩ | ⟨hf, nc, rfl, hn, a⟩
-    · exact ⟨none, rfl, by simp, fun st => by simp [applyAll, hf]⟩
-    · refine ⟨some (.deprecated nc), rfl, ?_, fun st => by simp [applyAll, SMethodAttr.apply, hf]⟩
-      intro x hx bsms q hq
-      cases Option.mem_some_iff.mp hx
-      exact ⟨hn, getUtf8_of hq.good (a.mono hq.le)⟩
-  have L2 : ∃ lo : Option SMethodAttr, o2 = lo.map SMethodAttr.frame ∧
-      (∀ a ∈ lo, ∀ bsms, Sound p3 (fun rp => a.Legal rp bsms)) ∧
-      ∀ st : MethodFacts, applyAll SMethodAttr.apply st lo.toList = some { st with synthetic := st.synthetic || m.synthetic } := by
-    rcases c2 with ⟨hf, rfl⟩ | ⟨hf, nc, rfl, hn, a⟩
-    · exact ⟨none, rfl, by simp, fun st => by simp [applyAll, hf]⟩
-    · refine ⟨some (.synthetic nc), rfl, ?_, fun st => by simp [applyAll, SMethodAttr.apply, hf]⟩
-      intro x hx bsms q hq
-      cases Option.mem_some_iff.mp hx
-      exact ⟨hn, getUtf8_of hq.good (a.mono hq.le)⟩
-  have L3 : ∃ lo : Option SMethodAttr, o3 = lo.map SMethodAttr.frame ∧
-      (∀ a ∈ lo, ∀ bsms, Sound q3 (fun rp => a.Legal rp bsms)) ∧
-      ∀ st : MethodFacts, st.exceptions = none → applyAll SMethodAttr.apply st lo.toList = some { st with exceptions := m.exceptions } := by
-    rcases c3 with ⟨hf, rfl⟩ | ⟨cs, cps, hf, ⟨nc, rfl, hn, a⟩, hl, hlt, hr⟩
-    · exact ⟨none, rfl, by simp, fun st hst => by cases st; simp_all [applyAll]⟩
-    · refine ⟨some (.exceptions nc cps cs), rfl, ?_, fun st hst => by simp [applyAll, SMethodAttr.apply, hf, hst]⟩
-      intro x hx bsms q hq
-      cases Option.mem_some_iff.mp hx
-      refine ⟨hn, getUtf8_of hq.good (a.mono hq.le), hlt, hl, ?_⟩
-      intro y hy
-      exact ⟨(hr y hy).1, getClass_of hq.good ((hr y hy).2.mono hq.le) (hok.exceptions cs hf y.2 (List.of_mem_zip hy).2)⟩
-  have L4 : ∃ lo : Option SMethodAttr, o4 = lo.map SMethodAttr.frame ∧
-      (∀ a ∈ lo, ∀ bsms, Sound q6 (fun rp => a.Legal rp bsms)) ∧
-      ∀ st : MethodFacts, st.signature = none → applyAll SMethodAttr.apply st lo.toList = some { st with signature := m.signature } := by
-    rcases c4 with ⟨hf, rfl⟩ | ⟨v, cp, hf, ⟨nc, rfl, hn, a⟩, hc, ac⟩
-    · exact ⟨none, rfl, by simp, fun st hst => by cases st; simp_all [applyAll]⟩
-    · refine ⟨some (.signature nc cp v), rfl, ?_, fun st hst => by simp [applyAll, SMethodAttr.apply, hf, hst]⟩
-      intro x hx bsms q hq
-      cases Option.mem_some_iff.mp hx
-      exact ⟨hn, getUtf8_of hq.good (a.mono hq.le), hc, getUtf8_of hq.good (ac.mono hq.le)⟩
-  have L7 : ∃ lo : Option SMethodAttr, o7 = lo.map SMethodAttr.frame ∧
-      (∀ a ∈ lo, ∀ bsms, Sound q7 (fun rp => a.Legal rp bsms)) ∧
-      ∀ st : MethodFacts, st.params = none → applyAll SMethodAttr.apply st lo.toList = some { st with params := m.params } := by
-    rcases c7 with ⟨hf, rfl⟩ | ⟨ps, ls, hf, ⟨nc, rfl, hn, a⟩, hl, hlt, hr⟩
-    · exact ⟨none, rfl, by simp, fun st hst => by cases st; simp_all [applyAll]⟩
-    · refine ⟨some (.methodParameters nc ls), rfl, ?_, fun st hst => ?_⟩
-      · intro x hx bsms q hq
-        cases Option.mem_some_iff.mp hx
-        refine ⟨hn, getUtf8_of hq.good (a.mono hq.le), hlt, ?_⟩
-        intro y hy
-        obtain ⟨k, hk, hyk⟩ := List.getElem_of_mem hy
-        have hk' : k < ps.length := by omega
-        have hz : (y, ps[k]) ∈ ls.zip ps := by
-          rw [← hyk]
-          exact List.mem_iff_getElem.mpr ⟨k, by rw [List.length_zip]; omega, by simp⟩
-        obtain ⟨b1, b2, b3, b4⟩ := hr _ hz
-        simp only at b1 b2 b3 b4
-        have hpk := hok.params ps hf ps[k] (List.getElem_mem hk')
-        refine ⟨b3, by rw [b2]; exact hpk.1, ?_⟩
-        rcases b4 with ⟨hnone, h0⟩ | ⟨n, hn', hu, h1'⟩
-        · rw [h0, b1, hnone]; exact getOptional_zero _ _
-        · rw [b1, hn']
-          apply getOptional_pos _ _ h1'
-          simp [getUtf8_of hq.good (hu.mono hq.le), checked, hpk.2.2 n hn', bind, Outcome.bind]
-      · simp only [Option.toList, applyAll, SMethodAttr.apply, hst, Option.isNone_none, if_true, hf]
-        congr 2
-        refine congrArg some ?_
-        apply map_eq_of_zip _ ls ps hl
-        intro x hx
-        obtain ⟨b1, b2, _, _⟩ := hr x hx
-        have hpk := hok.params ps hf x.2 (List.of_mem_zip hx).2
-        cases hx2 : x.2
-        simp_all
-  obtain ⟨l1, rfl, sd1, f1⟩ := L1
-  obtain ⟨l2, rfl, sd2, f2⟩ := L2
-  obtain ⟨l3, rfl, sd3, f3⟩ := L3
-  obtain ⟨l4, rfl, sd4, f4⟩ := L4
-  obtain ⟨l7, rfl, sd7, f7⟩ := L7
-  let unk : List SMethodAttr := (ncs.zip m.attrs).map fun x => SMethodAttr.unknown x.1 x.2.name x.2.bytes
-  let attrs : List SMethodAttr := l1.toList ++ (l2.toList ++ (l3.toList ++ (l4.toList ++ (l7.toList ++ unk))))
-  have hmap : attrs.map SMethodAttr.frame
-      = (l1.map SMethodAttr.frame).toList ++ ((l2.map SMethodAttr.frame).toList ++ []) ++ [] ++
-          ((l3.map SMethodAttr.frame).toList ++ ((l4.map SMethodAttr.frame).toList ++ ([] ++ ((none : Option Bytes).toList ++
-            ((l7.map SMethodAttr.frame).toList ++ (ncs.zip m.attrs).map fun x => attrFrame x.1 x.2.bytes))))) := by
-    simp only [attrs, unk, List.map_append, List.map_map, List.nil_append, List.append_nil, toList_map, Option.toList_none,
-      List.append_assoc]
-    rfl
+  have s10 := t11
+  have s9 := t10.trans s10
+  have s8 := t9.trans s9
+  have s7 := t8.trans s8
+  have s6 := t7.trans s7
+  have s5 := t6.trans s6
+  have s4 := t5.trans s5
+  have s3 := t4.trans s4
+  have s2' := t3.trans s3
+  have s1' := t2.trans s2'
+  have s0 := t1.trans s1'
+  refine ⟨rfl, s1.trans (s2.trans s0), ?_⟩
+  have B :=
+    GBlocks.cons' (mblock_deprecated c1) s1'.le
+    (GBlocks.cons' (mblock_synthetic c2) s2'.le
+    (GBlocks.cons (mblock_exceptions hok.exceptions c3) s3.le
+    (GBlocks.cons (mblock_signature c4) s4.le
+    (GBlocks.cons' (mblock_annos true c5) s5.le
+    (GBlocks.cons' (mblock_annos false c6) s6.le
+    (GBlocks.cons' (mblock_typeAnnos true c7) s7.le
+    (GBlocks.cons' (mblock_typeAnnos false c8) s8.le
+    (GBlocks.cons (mblock_annotationDefault c9) s9.le
+    (GBlocks.cons (mblock_params hok.params c10) s10.le
+      (mblocks_unknown hok.unknown hlen hunk)
+      (pre := fun c : MethodFacts => c.params = none) (fun c h => ⟨h, trivial⟩))
+      (pre := fun c : MethodFacts => c.annotationDefault = none ∧ c.params = none) (fun c h => ⟨h.1, h.2⟩))
+      (pre2 := fun c : MethodFacts => c.annotationDefault = none ∧ c.params = none) (fun c h => ⟨h.1, h.2⟩))
+      (pre2 := fun c : MethodFacts => c.annotationDefault = none ∧ c.params = none) (fun c h => ⟨h.1, h.2⟩))
+      (pre2 := fun c : MethodFacts => c.annotationDefault = none ∧ c.params = none) (fun c h => ⟨h.1, h.2⟩))
+      (pre2 := fun c : MethodFacts => c.annotationDefault = none ∧ c.params = none) (fun c h => ⟨h.1, h.2⟩))
+      (pre := fun c : MethodFacts => c.signature = none ∧ c.annotationDefault = none ∧ c.params = none) (fun c h => ⟨h.1, h.2⟩))
+      (pre := fun c : MethodFacts => c.exceptions = none ∧ c.signature = none ∧ c.annotationDefault = none ∧ c.params = none)
+      (fun c h => ⟨h.1, h.2⟩))
+      (pre2 := fun c : MethodFacts => c.exceptions = none ∧ c.signature = none ∧ c.annotationDefault = none ∧ c.params = none)
+      (fun c h => ⟨h.1, h.2⟩))
+      (pre2 := fun c : MethodFacts => c.exceptions = none ∧ c.signature = none ∧ c.annotationDefault = none ∧ c.params = none)
+      (fun c h => ⟨h.1, h.2⟩)
+  obtain ⟨attrs, hbytes, hsound, hfacts⟩ := B
+  have hb' : o1.toList ++ (o2.toList ++ []) ++ [] ++ (o3.toList ++ (o4.toList ++ (o5.toList ++ (o6.toList ++ (o7.toList ++
+      (o8.toList ++ [])))  ++ (o9.toList ++ (o10.toList ++ List.map (fun x => attrFrame x.fst x.snd.bytes) (ncs.zip m.attrs))))))
+      = attrs.map SMethodAttr.frame := by
+    rw [show attrs.map SMethodAttr.frame = attrs.map ownMethod.frame from rfl, ← hbytes]; simp [List.append_assoc]
   refine ⟨⟨m.access, ni, m.name, di, m.desc, attrs⟩, ?_, ?_, ?_⟩
   · simp only [MethodLayout.encode, encAttrs_eq]
-    rw [← hmap, List.length_map]
+    rw [hb', List.length_map]
     rfl
   · intro bsms q hq
-    have hq1 : Ext p1 q := hq.of_le (s2.trans (t1.trans (t2.trans (t3.trans (t4.trans (t7.trans t8)))))).le
-    have hp3 : Ext p2 q := hq.of_le (t1.trans (t2.trans (t3.trans (t4.trans (t7.trans t8))))).le
-    refine ⟨hok.access, hni, hdi, getUtf8_of hq.good (a1.mono hq1.le), hok.name, getUtf8_of hq.good (a2.mono hp3.le), ?_, ?_⟩
-    · have : attrs.length = (attrs.map SMethodAttr.frame).length := by simp
-      rw [this, hmap]
-      omega
-    · intro a ha
-      simp only [attrs, List.mem_append, Option.mem_toList] at ha
-      rcases ha with ha | ha | ha | ha | ha | ha
-      · exact sd1 a ha bsms q (hq.of_le (t2.trans (t3.trans (t4.trans (t7.trans t8)))).le)
-      · exact sd2 a ha bsms q (hq.of_le (t3.trans (t4.trans (t7.trans t8))).le)
-      · exact sd3 a ha bsms q (hq.of_le (t4.trans (t7.trans t8)).le)
-      · exact sd4 a ha bsms q (hq.of_le (t7.trans t8).le)
-      · exact sd7 a ha bsms q (hq.of_le t8.le)
-      · simp only [unk, List.mem_map] at ha
-        obtain ⟨x, hx, rfl⟩ := ha
-        obtain ⟨hn, hu, hb⟩ := hunk x hx
-        exact ⟨hn, getUtf8_of hq.good (hu.mono hq.le), hok.unknown x.2 (List.of_mem_zip hx).2, hb⟩
-  · simp only [MethodLayout.facts, attrs, applyAll_append, f1, f2, Option.bind_some]
-    rw [f3 _ rfl]
-    simp only [Option.bind_some]
-    rw [f4 _ rfl]
-    simp only [Option.bind_some]
-    rw [f7 _ rfl]
-    simp only [Option.bind_some, unk]
-    rw [applyAll_method_unknown _ ncs m.attrs hlen]
+    have hq1 : Ext p1 q := hq.of_le (s2.trans s0).le
+    have hq2 : Ext p2 q := hq.of_le s0.le
+    refine ⟨hok.access, hni, hdi, getUtf8_of hq.good (a1.mono hq1.le), hok.name, getUtf8_of hq.good (a2.mono hq2.le), ?_,
+      fun a ha => hsound a ha q hq bsms⟩
+    rw [hb', List.length_map] at hcount
+    show attrs.length < 65536
+    omega
+  · have := hfacts ⟨m.access &&& maskMethod, m.name, m.desc, false, false, none, none, none, [], [], [], [], none, none, []⟩
+      ⟨rfl, rfl, rfl, rfl⟩
+    simp only [MethodLayout.facts]
+    show applyAll ownMethod.apply _ attrs = some m
+    rw [this]
     have hm := hok.mask
     have g0 := hok.code
-    have g1 := hok.rva
-    have g2 := hok.ria
-    have g3 := hok.rvta
-    have g4 := hok.rita
-    have g5 := hok.annotationDefault
     cases m
     simp_all
 
